@@ -17,6 +17,7 @@ ELF = "miasm/jitter/loader/elf.py"
 LEVEL_TEXT = ("Def-use / control-dependence rules over vm_load_pe, vm_load_elf and the preload functions: access argument "
               "depends on the header flag test, slot address and stub value come from the same import, padding formula and "
               "addresses. Decides these necessary clauses for every image; loads nothing.")
+LEVEL_TEXT += " Also: an ELF segment's page span covers max(memsz, filesz) rounded to a page."
 ASSUMPTIONS = ["CPython ast", "IMAGE_SCN_MEM_WRITE = 0x80000000, PF_W = 2 (PE/ELF specifications)"]
 
 
